@@ -1002,6 +1002,17 @@ class ExperimentTopology(Topology):
         """
         Prune this network service and its interfaces
         """
+        # if this service peers with other services, remove their service ports facing us as well,
+        # so they are not left without a peer (same as remove_network_service). Look the ports up
+        # in the graph - some may be gone already if their nodes were pruned
+        for cp_id in self.graph_model.get_all_ns_or_link_connection_points(link_id=ns.node_id):
+            peer_ids = self.graph_model.find_peer_connection_points(node_id=cp_id)
+            if peer_ids is None:
+                continue
+            for peer_id in peer_ids:
+                _, peer_props = self.graph_model.get_node_properties(node_id=peer_id)
+                if peer_props.get(ABCPropertyGraph.PROP_TYPE, None) == str(InterfaceType.ServicePort):
+                    self.graph_model.remove_cp_and_links(node_id=peer_id)
         self.graph_model.remove_ns_with_cps_and_links(node_id=ns.node_id)
 
     def _prune_components(self, c: Component, parent: Node):
